@@ -232,7 +232,9 @@ def run_job(job):
             dst = work / "[EUD] out [v1].scx"
         # bystanders: unrelated files next to the destination under the names a careless staging scheme would pick
         bystanders = {}
-        for suffix in (".part", ".tmp", ".bak", "~", ".new", ".partial"):
+        # (... including names derived from what a process can know beforehand: its own pid, the user name)
+        for suffix in (".part", ".tmp", ".bak", "~", ".new", ".partial", f".{os.getpid()}.part", f".{os.getpid()}.tmp",
+                       f".{os.getpid()}"):
             q = work / ("out.scx" + suffix)
             q.write_bytes(b"somebody else's file " + suffix.encode())
             bystanders[q.name] = sha(q)
